@@ -20,8 +20,16 @@ CHECKS = {
    "For every accepted string of the dot-segment/separator lenses the reported namespace and subpath segments are exactly the decoded non-skipped raw pieces; no empty, '.' or '..' subpath segment, no empty namespace segment."),
  "C10": ("exploration", "3", "bounded-exhaustive input enumeration; rebuild-identity oracle",
    "For every accepted string of the lenses, p.clone().into_builder().build() == Ok(p) with the identical string, for String, SmallString and PackageType."),
+ "C03": ("exploration", "3", "exhaustive sweep over all 1,112,064 Unicode scalar values and all ASCII pairs in every component position (builder) plus bounded-exhaustive input enumeration (parser); independent renderer as oracle",
+   "to_string() equals an independent renderer (escape table transcribed from the property text) for every scalar value alone and embedded, and every ASCII pair, in each of the five component positions, for the listed type parameters and package types, and for every value the parser returns on the token lenses; output is printable ASCII."),
+ "C08": ("exploration", "3", "exhaustive sweep over all Unicode scalar values and all short strings over a name alphabet, both entry points; bounded-exhaustive typed-vs-untyped differential on the token lenses",
+   "For every scalar value (as 'c' and 'xcx') and every name up to the bound over {a A 1 - _ . E-acute titlecase-dz}, the seven types apply exactly the documented name rule, identically from parser and builder; maven namespaces without a segment are refused; on every lens node the typed PURL has the namespace/version/qualifiers/subpath of the type-agnostic one and refuses unknown types with UnsupportedType."),
  "C13": ("exploration", "3", "bounded-exhaustive input enumeration; differential oracle across type parameters",
    "Every string of the lenses gives the same acceptance, error text, accessors and canonical string as GenericPurl<String> and GenericPurl<SmallString>."),
+ "C15": ("exploration", "3", "exhaustive enumeration of case variants, short strings over the name letters plus look-alikes, and every scalar value substituted/inserted at every position of every name",
+   "PackageType::from_str accepts exactly the ASCII case variants of the seven names: all 2^len variants accepted, and no other string of the enumerated families (short strings with look-alikes, one scalar inserted/substituted anywhere, deletions, transpositions, paddings, other spec type names) is accepted; name(), Display, AsRef, From, package_type(), the formatted type segment and serde agree."),
+ "C18": ("exploration", "3", "exhaustive enumeration of all short combined names over a separator alphabet and all scalar values, for all seven types; inverse direction on every typed value of the lenses",
+   "builder_with_combined_name splits exactly like the reference split for every string up to the bound over {a B / : . @ e-acute} and every scalar value, and combined_name() fed back reproduces namespace and name for every typed PURL of the lenses that satisfies the side condition."),
 }
 
 NOT_YET = "check not built yet (construction in progress, DESIGN.md 8a); will be claimed once its explorer exists"
